@@ -302,11 +302,35 @@ func (vc *VC) runDefers(fr *Frame, st *State, pos token.Position) {
 	for i := len(fr.defers) - 1; i >= 0; i-- {
 		d := fr.defers[i]
 		callee := d.Call.StaticCallee()
-		if callee == nil {
-			if !d.Call.IsInvoke() {
-				if _, ok := d.Call.Value.(*ssa.MakeClosure); ok {
-					vc.note("deferred closure in %s not executed", funcKey(fr.fn))
+		if callee == nil && !d.Call.IsInvoke() {
+			// deferred function literal: run its body now
+			fv := vc.value(fr, d.Call.Value)
+			if fv.Clo != nil {
+				fn := fv.Clo.Fn.(*ssa.Function)
+				if fn.Blocks != nil && fr.depth < maxInlineDepth && vc.canInline(fn) {
+					var args []Val
+					for _, a := range d.Call.Args {
+						args = append(args, vc.value(fr, a))
+					}
+					var ccon *Contract
+					if isNestedIn(fn, fr.fn) {
+						ccon = fr.con
+					}
+					_, out := vc.execFunc(fn, args, fv.Clo.Bindings, st, fr.depth+1, ccon, false)
+					if out.pc != "false" {
+						*st = *out
+					}
+					continue
 				}
+			}
+			vc.note("deferred function value in %s not executed: heap havocked", funcKey(fr.fn))
+			vc.havocAllHeap(st)
+			continue
+		}
+		if callee == nil {
+			if !vc.eng.isPureMethod(&d.Call) {
+				vc.note("deferred interface call in %s: heap havocked", funcKey(fr.fn))
+				vc.havocAllHeap(st)
 			}
 			continue
 		}
@@ -318,7 +342,46 @@ func (vc *VC) runDefers(fr *Frame, st *State, pos token.Position) {
 		if vc.eng.isNoEffect(key) {
 			continue
 		}
-		vc.note("deferred call to %s in %s not executed", key, funcKey(fr.fn))
+		if mc, ok := d.Call.Value.(*ssa.MakeClosure); ok {
+			fv := vc.value(fr, mc)
+			fn := mc.Fn.(*ssa.Function)
+			if fv.Clo != nil && fn.Blocks != nil && fr.depth < maxInlineDepth && vc.canInline(fn) {
+				var args []Val
+				for _, a := range d.Call.Args {
+					args = append(args, vc.value(fr, a))
+				}
+				var ccon *Contract
+				if isNestedIn(fn, fr.fn) {
+					ccon = fr.con
+				}
+				_, out := vc.execFunc(fn, args, fv.Clo.Bindings, st, fr.depth+1, ccon, false)
+				if out.pc != "false" {
+					*st = *out
+				}
+				continue
+			}
+		}
+		if con := vc.eng.cs.Funcs[key]; con != nil && !con.Flags["inline"] {
+			var args []Val
+			for _, a := range d.Call.Args {
+				args = append(args, vc.value(fr, a))
+			}
+			vc.applyContract(fr, st, callee, con, args, pos, "deferred "+key)
+			continue
+		}
+		if callee.Blocks != nil && fr.depth < maxInlineDepth && vc.canInline(callee) {
+			var args []Val
+			for _, a := range d.Call.Args {
+				args = append(args, vc.value(fr, a))
+			}
+			_, out := vc.execFunc(callee, args, nil, st, fr.depth+1, nil, false)
+			if out.pc != "false" {
+				*st = *out
+			}
+			continue
+		}
+		vc.note("deferred call to %s in %s: heap havocked", key, funcKey(fr.fn))
+		vc.havocAllHeap(st)
 	}
 }
 
@@ -335,8 +398,17 @@ func (vc *VC) lockCall(fr *Frame, st *State, c *ssa.CallCommon, key string, pos 
 	if len(c.Args) == 0 {
 		return
 	}
-	mu := vc.value(fr, c.Args[0])
-	id := lockID(mu)
+	// the lockset follows the function under contract and its own closures only: inlined callees
+	// acquire and release their own locks (checked when they are under contract themselves)
+	if !(fr.top || (vc.topFn != nil && isNestedIn(fr.fn, vc.topFn))) {
+		return
+	}
+	// a mutex is identified by the source-level access path of its operand (variable and field
+	// names), assuming the variable is not reassigned between Lock and Unlock
+	id := accessPath(c.Args[0])
+	if id == "" {
+		id = lockID(vc.value(fr, c.Args[0]))
+	}
 	if id == "" {
 		return
 	}
@@ -396,4 +468,31 @@ func (vc *VC) lockCheck(fr *Frame, st *State, l *Loc, write bool, pos token.Posi
 	}
 	vc.oblige(st, "lockset", fmt.Sprintf("%s#lockset.%s:%s%s", funcKey(fr.fn), what, typeKey(l.Base), prefix),
 		fmt.Sprintf("%s of %s%s requires %s held (mode %d, have %d)", what, typeKey(l.Base), prefix, g, need, mode), pos, goal)
+}
+
+// accessPath: source-level path of a pointer operand: locals, parameters and captured variables
+// by name, fields by name.
+func accessPath(v ssa.Value) string {
+	switch x := v.(type) {
+	case *ssa.Parameter:
+		return x.Name()
+	case *ssa.FreeVar:
+		return x.Name()
+	case *ssa.Alloc:
+		return x.Comment
+	case *ssa.Global:
+		return x.Name()
+	case *ssa.UnOp:
+		if x.Op == token.MUL {
+			return accessPath(x.X)
+		}
+	case *ssa.FieldAddr:
+		b := accessPath(x.X)
+		if b == "" {
+			return ""
+		}
+		st := x.X.Type().Underlying().(*types.Pointer).Elem().Underlying().(*types.Struct)
+		return b + "." + st.Field(x.Field).Name()
+	}
+	return ""
 }
